@@ -115,8 +115,11 @@ fn ncomp(i: usize) -> usize { if i >= 17 { 1 } else { 3 } }
 pub trait Node: Copy + 'static {
     type T: Flt;
     const NAME: &'static str;
-    fn of(v: &[f64; 3]) -> Self;
-    fn arr(self) -> [f64; 3];
+    /// from / to components in declared order, in the component type itself (no cast: bit patterns survive)
+    fn of_s(v: &[Self::T; 3]) -> Self;
+    fn arr_s(self) -> [Self::T; 3];
+    fn of(v: &[f64; 3]) -> Self { Self::of_s(&[<Self::T>::of64(v[0]), <Self::T>::of64(v[1]), <Self::T>::of64(v[2])]) }
+    fn arr(self) -> [f64; 3] { let a = self.arr_s(); [a[0].to64(), a[1].to64(), a[2].to64()] }
 }
 /// SIMD colour
 pub trait SNode: Copy + 'static {
@@ -162,12 +165,12 @@ macro_rules! node {
         impl Node for $al<$S> {
             type T = $S;
             const NAME: &'static str = $name;
-            fn of(w: &[f64; 3]) -> Self { let $v: [$S; 3] = [w[0] as $S, w[1] as $S, w[2] as $S]; $of }
-            fn arr(self) -> [f64; 3] {
+            fn of_s(w: &[$S; 3]) -> Self { let $v: [$S; 3] = *w; $of }
+            fn arr_s(self) -> [$S; 3] {
                 let $c = self;
-                let mut o = [0.0f64; 3];
+                let mut o = [0.0 as $S; 3];
                 let mut k = 0;
-                $( o[k] = ($arr) as f64; k += 1; )*
+                $( o[k] = $arr; k += 1; )*
                 let _ = k;
                 o
             }
@@ -283,17 +286,493 @@ impl Universe {
     }
 }
 
-// MAIN-PLACEHOLDER
-fn main() {
-    let u = Universe::new();
-    for (vt, _, _, t) in &u.vts {
-        println!("{}", vt);
-        for (i, r) in t.iter().enumerate() {
-            println!("{:9} {}", NAMES[i], r.iter().map(|f| if f.is_some() { "1" } else { "." }).collect::<String>());
+// ------------------------------------------------------------------------------------------------ inputs
+
+fn r32(x: f64) -> f64 { x as f32 as f64 }
+fn r32c(c: Col) -> Col { [r32(c[0]), r32(c[1]), r32(c[2])] }
+const I_LINSRGB: usize = 12;
+const I_SRGB: usize = 13;
+
+pub struct Gen<'a> {
+    pub u: &'a Universe,
+    pub rng: Sm64,
+}
+impl<'a> Gen<'a> {
+    /// the source-node coordinates (rounded to f32, hence exact in f32 and f64) of an sRGB colour
+    fn from_srgb(&self, node: usize, rgb: Col) -> Col {
+        if node == I_SRGB { return r32c(rgb); }
+        r32c((self.u.s64[I_SRGB][node].expect("srgb -> node"))(&rgb).unwrap_or([0.0; 3]))
+    }
+    fn from_node(&self, from: usize, node: usize, c: Col) -> Col {
+        if node == from { return r32c(c); }
+        r32c((self.u.s64[from][node].expect("node -> node"))(&c).unwrap_or([0.0; 3]))
+    }
+    fn unit(&mut self) -> f64 { self.rng.unit() }
+    /// in-gamut sRGB colour, with a mixture of scales so that dark colours (below the joins of the
+    /// piecewise definitions) are as likely as bright ones
+    fn srgb_any(&mut self) -> Col {
+        let s = *self.rng.pick(&[1.0, 1.0, 1.0, 0.3, 0.1, 0.03]);
+        [self.unit() * s, self.unit() * s, self.unit() * s]
+    }
+    fn srgb_mid(&mut self) -> Col { [self.rng.range(0.15, 0.85), self.rng.range(0.15, 0.85), self.rng.range(0.15, 0.85)] }
+    /// random in-gamut colour in the coordinates of `node`
+    pub fn random_in(&mut self, node: usize) -> Col {
+        let c = self.srgb_any();
+        self.from_srgb(node, c)
+    }
+
+    /// One input of the abstract class `cls` of family `fam`, in the coordinates of `node`.
+    /// Families and classes are those enumerated by spec/mc/MC_Simd.tla (Families).
+    pub fn make_input(&mut self, fam: &str, cls: &str, node: usize) -> Col {
+        let name = NAMES[node];
+        match fam {
+            // which channel is the maximum (incl. ties, grey): source srgb / linsrgb
+            "rgbmax" => {
+                let mut v = [self.rng.range(0.05, 0.95), self.rng.range(0.05, 0.95), self.rng.range(0.05, 0.95)];
+                v.sort_by(|a, b| b.partial_cmp(a).unwrap());
+                if v[0] == v[1] { v[0] += 0.01 }
+                if v[1] == v[2] { v[2] *= 0.5 }
+                let (hi, mid, lo) = (r32(v[0]), r32(v[1]), r32(v[2]));
+                let flip = self.rng.coin();
+                let (p, q) = if flip { (mid, lo) } else { (lo, mid) };
+                match cls {
+                    "rmax" => [hi, p, q],
+                    "gmax" => [p, hi, q],
+                    "bmax" => [p, q, hi],
+                    "tie_rg" => [hi, hi, lo],
+                    "tie_gb" => [lo, hi, hi],
+                    "tie_rb" => [hi, lo, hi],
+                    "grey" => [mid, mid, mid],
+                    "black" => [0.0, 0.0, 0.0],
+                    "white" => [1.0, 1.0, 1.0],
+                    _ => bad_class(fam, cls),
+                }
+            }
+            // per channel: linear toe (l) or power segment (h) of the transfer function, t = exactly on the threshold
+            "rgbtf" => {
+                let thr = if name == "srgb" { 0.04045 } else { 0.0031308 };
+                let b = cls.as_bytes();
+                let mut o = [0.0; 3];
+                for k in 0..3 {
+                    o[k] = match b[k] {
+                        b'l' => r32(self.unit() * thr * 0.98),
+                        b'h' => r32(thr * 1.05 + self.unit() * (1.0 - thr * 1.05)),
+                        b't' => r32(thr),
+                        _ => bad_class(fam, cls),
+                    };
+                }
+                o
+            }
+            // per channel: X/Xn, Y/Yn, Z/Zn above (a) or below (b) the join (6/29)^3 of f(t); black
+            "xyzjoin" | "labjoin" => {
+                if cls == "black" { return [0.0; 3]; }
+                if cls == "grey0" {
+                    // exactly neutral Lab: a = b = 0
+                    return [r32(self.rng.range(5.0, 95.0)), 0.0, 0.0];
+                }
+                let want = cls.as_bytes();
+                let eps = (6.0f64 / 29.0).powi(3);
+                let wp = [0.95047, 1.0, 1.08883];
+                for _ in 0..200000 {
+                    let s = *self.rng.pick(&[1.0, 0.1, 0.05, 0.03, 0.015]);
+                    let lin = [self.unit() * s, self.unit() * s, self.unit() * s];
+                    let xyz = self.from_node(I_LINSRGB, 0, lin);
+                    let c = if fam == "xyzjoin" { xyz } else { self.from_node(0, node, xyz) };
+                    // classify in the coordinates of the source node itself
+                    let t: [f64; 3] = if fam == "xyzjoin" {
+                        [c[0] / wp[0], c[1] / wp[1], c[2] / wp[2]]
+                    } else {
+                        let fy = (c[0] + 16.0) / 116.0;
+                        let f = [fy + c[1] / 500.0, fy, fy - c[2] / 200.0];
+                        [f[0].powi(3), f[1].powi(3), f[2].powi(3)]
+                    };
+                    // keep a distance from the join so that f32 and f64 lanes take the same branch
+                    let ok = (0..3).all(|k| if want[k] == b'a' { t[k] > eps * 1.02 } else { t[k] < eps * 0.98 });
+                    if ok { return c; }
+                }
+                eprintln!("no in-gamut sample for {} {}", fam, cls);
+                std::process::exit(3)
+            }
+            // polar spaces (lch, oklch, lchuv): zero chroma, tiny chroma, hue quadrants and representations
+            "polar" => {
+                let rgb = self.srgb_mid();
+                let mut c = self.from_srgb(node, rgb);
+                let q = |h: f64| -> f64 { let m = h.rem_euclid(360.0); (m / 90.0).floor() };
+                match cls {
+                    "c0" => [c[0], 0.0, 0.0],
+                    "c0h" => [c[0], 0.0, 123.0],
+                    "tiny" => [c[0], r32(c[1].max(1e-3) * 1e-6), c[2]],
+                    "q1" | "q2" | "q3" | "q4" => {
+                        let wantq = (cls.as_bytes()[1] - b'1') as f64;
+                        let mut n = 0;
+                        while q(c[2]) != wantq && n < 100000 { let rgb = self.srgb_mid(); c = self.from_srgb(node, rgb); n += 1; }
+                        [c[0], c[1], r32(c[2].rem_euclid(360.0))]
+                    }
+                    "hneg" => [c[0], c[1], r32(c[2].rem_euclid(360.0) - 360.0)],
+                    "h360" => [c[0], c[1], r32(c[2].rem_euclid(360.0) + 360.0)],
+                    "axis" => [c[0], c[1], *self.rng.pick(&[0.0, 90.0, 180.0, 270.0, 360.0, -90.0, -180.0])],
+                    _ => bad_class(fam, cls),
+                }
+            }
+            // cartesian opponent spaces (lab, luv, oklab): neutral, quadrants, on an axis
+            "cart" => {
+                let rgb = self.srgb_mid();
+                let mut c = self.from_srgb(node, rgb);
+                match cls {
+                    "grey0" => [c[0], 0.0, 0.0],
+                    "black" => [0.0, 0.0, 0.0],
+                    "q1" | "q2" | "q3" | "q4" => {
+                        let want = match cls { "q1" => (true, true), "q2" => (false, true), "q3" => (false, false), _ => (true, false) };
+                        let mut n = 0;
+                        while ((c[1] > 0.0, c[2] > 0.0) != want || c[1] == 0.0 || c[2] == 0.0) && n < 100000 {
+                            let rgb = self.srgb_mid(); c = self.from_srgb(node, rgb); n += 1;
+                        }
+                        c
+                    }
+                    "a0p" | "a0n" => { let m = r32(c[2].abs().max(1e-3)); [c[0], 0.0, if cls == "a0p" { m } else { -m }] }
+                    "b0p" | "b0n" => { let m = r32(c[1].abs().max(1e-3)); [c[0], if cls == "b0p" { m } else { -m }, 0.0] }
+                    "diag" => { let m = r32(c[1].abs().max(1e-3)); [c[0], m, m] }
+                    _ => bad_class(fam, cls),
+                }
+            }
+            "yxy" => {
+                let rgb = self.srgb_any();
+                let c = self.from_srgb(node, rgb);
+                match cls {
+                    "norm" => { let rgb = self.srgb_mid(); self.from_srgb(node, rgb) }
+                    "dark" => { let rgb = [self.unit() * 0.02, self.unit() * 0.02, self.unit() * 0.02]; self.from_srgb(node, rgb) }
+                    "luma0" => [c[0], c[1], 0.0],
+                    "y0" => [c[0], 0.0, 0.0],
+                    "black" => [0.0, 0.0, 0.0],
+                    _ => bad_class(fam, cls),
+                }
+            }
+            // hue sector / representation for the hexcone-like cylinders
+            "hexhue" | "hexsv" => {
+                let sc = if name == "hsluv" { 100.0 } else { 1.0 };
+                let hwb = name == "hwb" || name == "okhwb";
+                let mut h = r32(self.rng.range(0.0, 360.0));
+                let (mut a, mut b) = (self.rng.range(0.15, 0.85), self.rng.range(0.15, 0.85));
+                if hwb && a + b > 0.9 { a *= 0.45; b *= 0.45; }
+                if fam == "hexhue" {
+                    h = match cls {
+                        "s0" | "s1" | "s2" | "s3" | "s4" | "s5" => {
+                            let k = (cls.as_bytes()[1] - b'0') as f64;
+                            r32(60.0 * k + self.rng.range(1.0, 59.0))
+                        }
+                        "b0" => 0.0, "b60" => 60.0, "b120" => 120.0, "b180" => 180.0, "b240" => 240.0, "b300" => 300.0,
+                        "h360" => 360.0,
+                        "hneg" => r32(-self.rng.range(1.0, 359.0)),
+                        "hbig" => r32(360.0 + self.rng.range(1.0, 359.0)),
+                        _ => bad_class(fam, cls),
+                    };
+                } else {
+                    // (saturation-like, value/lightness-like); for HWB (whiteness, blackness)
+                    let (x, y) = match (cls, hwb) {
+                        ("grey", false) => (0.0, b), ("grey", true) => (a, 1.0 - r32(a)),
+                        ("black", false) => (a, 0.0), ("black", true) => (0.0, 1.0),
+                        ("white", false) => (0.0, 1.0), ("white", true) => (1.0, 0.0),
+                        ("full", false) => (1.0, if name == "hsl" || name == "okhsl" || name == "hsluv" { 0.5 } else { 1.0 }), ("full", true) => (0.0, 0.0),
+                        ("lo", false) => (a, b * 0.5), ("lo", true) => (a * 0.5, 0.5 + b * 0.5),
+                        ("hi", false) => (a, 0.5 + b * 0.5), ("hi", true) => (0.5 + a * 0.4, b * 0.1),
+                        ("half", false) => (a, 0.5), ("half", true) => (0.25, 0.25),
+                        ("norm", _) => (a, b),
+                        _ => bad_class(fam, cls),
+                    };
+                    a = x; b = y;
+                }
+                [h, r32(a * sc), r32(b * sc)]
+            }
+            "luma" => {
+                let thr = if name == "srgbluma" { 0.04045 } else { 0.0031308 };
+                let l = match cls {
+                    "black" => 0.0,
+                    "white" => 1.0,
+                    "low" => r32(self.unit() * thr * 0.98),
+                    "high" => r32(thr * 1.05 + self.unit() * (1.0 - thr * 1.05)),
+                    "thr" => r32(thr),
+                    _ => bad_class(fam, cls),
+                };
+                [l, 0.0, 0.0]
+            }
+            _ => bad_class(fam, cls),
         }
     }
-    println!("s32");
-    for (i, r) in u.s32.iter().enumerate() {
-        println!("{:9} {}", NAMES[i], r.iter().map(|f| if f.is_some() { "1" } else { "." }).collect::<String>());
+}
+fn bad_class<R>(fam: &str, cls: &str) -> R {
+    eprintln!("unknown class {} of family {}", cls, fam);
+    std::process::exit(3)
+}
+
+// ------------------------------------------------------------------------------------------------ events
+
+fn exc(c: &Col, n: usize) -> Value { Value::Array(c[..n].iter().map(|x| ex64(*x)).collect()) }
+fn exv(c: &[f64]) -> Value { Value::Array(c.iter().map(|x| ex64(*x)).collect()) }
+fn hexf(s: &str) -> f64 { f64::from_bits(u64::from_str_radix(s, 16).expect("hex f64")) }
+fn strs(v: &Value) -> Vec<String> { v.as_array().map(|a| a.iter().map(|x| x.as_str().unwrap().to_string()).collect()).unwrap_or_default() }
+
+pub struct Drv<'a> {
+    pub u: &'a Universe,
+    pub rec: Rec,
+    pub gid: u64,
+}
+impl<'a> Drv<'a> {
+    /// one SIMD call + N scalar calls per (target, vector type); one "lane" event per lane
+    fn lanes(&mut self, fam: &str, classes: &[String], from: usize, tos: &[usize], vts: &[String], ins: &[Col]) {
+        for (vt, n, t, table) in &self.u.vts {
+            if *n != ins.len() || (!vts.is_empty() && !vts.iter().any(|v| v == vt)) { continue; }
+            for &to in tos {
+                let f = match table[from][to] { Some(f) => f, None => continue };
+                self.gid += 1;
+                let r = f(ins);
+                let nf = ncomp(from);
+                let nt = ncomp(to);
+                for i in 0..*n {
+                    let sp = r.simd.is_err() as u8;
+                    let cp = r.scalar[i].is_err() as u8;
+                    let so = r.simd.as_ref().map(|v| v[i]).unwrap_or([0.0; 3]);
+                    let co = *r.scalar[i].as_ref().unwrap_or(&[0.0; 3]);
+                    self.rec.ev(json!({"ev": "lane", "gid": self.gid, "fam": fam, "cls": classes.get(i).map(|s| s.as_str()).unwrap_or(""),
+                        "from": NAMES[from], "to": NAMES[to], "vt": vt, "t": t, "n": n, "lane": i,
+                        "in": exc(&ins[i], nf), "simd": exc(&so, nt), "scalar": exc(&co, nt),
+                        "hs": exc(&self.u.hub(to, &so), 3), "hc": exc(&self.u.hub(to, &co), 3), "sp": sp, "cp": cp}));
+                }
+            }
+        }
     }
+    fn caps(&mut self) {
+        let m = |t: &Vec<Vec<Option<LaneFn>>>| -> Value { json!(t.iter().map(|r| r.iter().map(|f| f.is_some() as u8).collect::<Vec<u8>>()).collect::<Vec<_>>()) };
+        let ms = |t: &Vec<Vec<Option<ScFn>>>| -> Value { json!(t.iter().map(|r| r.iter().map(|f| f.is_some() as u8).collect::<Vec<u8>>()).collect::<Vec<_>>()) };
+        let mut conv = serde_json::Map::new();
+        for (vt, _, _, table) in &self.u.vts { conv.insert(vt.to_string(), m(table)); }
+        self.rec.ev(json!({"ev": "caps", "names": NAMES, "conv": conv, "s32": ms(&self.u.s32), "s64": ms(&self.u.s64), "ops": op_caps()}));
+    }
+}
+
+// ------------------------------------------------------------------------------------------------ packing
+
+fn special_bits<S: Flt>(rng: &mut Sm64) -> S {
+    // any bit pattern must survive packing: zeros of both signs, subnormals, infinities, NaNs with payload, ordinary values
+    let wide64 = S::TN == "f64";
+    let pats32: [u64; 10] = [0, 0x8000_0000, 1, 0x8000_0001, 0x7f80_0000, 0xff80_0000, 0x7fc0_0000, 0xffc1_2345, 0x3f80_0000, 0x7f7f_ffff];
+    let pats64: [u64; 10] = [0, 0x8000_0000_0000_0000, 1, 0x8000_0000_0000_0001, 0x7ff0_0000_0000_0000, 0xfff0_0000_0000_0000,
+        0x7ff8_0000_0000_0000, 0xfff8_0012_3456_789a, 0x3ff0_0000_0000_0000, 0x7fef_ffff_ffff_ffff];
+    match rng.below(3) {
+        0 => S::of_bits(if wide64 { *rng.pick(&pats64) } else { *rng.pick(&pats32) }),
+        1 => S::of_bits(if wide64 { rng.next() } else { rng.next() & 0xffff_ffff }),
+        _ => S::of64(rng.range(-2.0, 400.0)),
+    }
+}
+
+pub type PackFn = fn(&mut Sm64, bool) -> Value;
+fn pack_event<A: SNode>(rng: &mut Sm64, alpha: bool) -> Value {
+    let n = <A::V as Wd>::N;
+    let nc = if <A::Sc as Node>::NAME.ends_with("luma") { 1 } else { 3 };
+    // scalar colours from raw bit patterns: build through `of` (f64 -> S is exact for values that came from S)
+    let vals: Vec<Vec<SOf<A>>> = (0..n).map(|_| (0..3).map(|_| special_bits::<SOf<A>>(rng)).collect()).collect();
+    let al: Vec<SOf<A>> = (0..n).map(|_| special_bits::<SOf<A>>(rng)).collect();
+    // NaN payloads do not survive an f64 round trip in general: components are written in their own type
+    let sc: Vec<A::Sc> = vals.iter().map(|v| <A::Sc as Node>::of_s(&[v[0], v[1], v[2]])).collect();
+    let bits_of = |c: &A::Sc| -> Vec<String> { let a = c.arr_s(); (0..nc).map(|k| a[k].bits()).collect() };
+    let inb: Vec<Vec<String>> = sc.iter().enumerate().map(|(i, c)| { let mut b = bits_of(c); if alpha { b.push(al[i].bits()); } b }).collect();
+    let r = catch(|| {
+        if alpha {
+            let (comps, back) = A::alpha_roundtrip(&sc, &al);
+            let cb: Vec<Vec<String>> = comps.iter().map(|v| v.to_vec().iter().map(|x| x.bits()).collect()).collect();
+            let bb: Vec<Vec<String>> = back.iter().map(|(c, a)| { let mut b = bits_of(c); b.push(a.bits()); b }).collect();
+            (cb, bb)
+        } else {
+            let p = A::pack(&sc);
+            let cb: Vec<Vec<String>> = p.comps().iter().map(|v| v.to_vec().iter().map(|x| x.bits()).collect()).collect();
+            let bb: Vec<Vec<String>> = p.unpack().iter().map(bits_of).collect();
+            (cb, bb)
+        }
+    });
+    let (cb, bb, panic) = match r { Ok((c, b)) => (c, b, 0), Err(_) => (vec![], vec![], 1) };
+    json!({"ev": "pack", "node": <A::Sc as Node>::NAME, "vt": <A::V as Wd>::VT, "t": <SOf<A>>::TN, "n": n, "alpha": alpha as u8,
+           "in": inb, "comps": cb, "back": bb, "panic": panic})
+}
+macro_rules! pack_row { ($T:ident; [$($A:ident),*]; $list:tt) => { vec![ $( pack_event::<$A<$T>> as PackFn ),* ] }; }
+fn pack_fns() -> Vec<Vec<PackFn>> {
+    vec![with_nodes!(pack_row, f32x4), with_nodes!(pack_row, f32x8), with_nodes!(pack_row, f64x2), with_nodes!(pack_row, f64x4)]
+}
+
+// ------------------------------------------------------------------------------------------------ masks
+
+pub trait WdMask: Wd + HasBoolMask<Mask = Self> + pn::PartialCmp + BoolMask + Select<Self> + LazySelect<Self>
+    + core::ops::BitAnd<Output = Self> + core::ops::BitOr<Output = Self> + core::ops::BitXor<Output = Self> + core::ops::Not<Output = Self>
+where Self::S: pn::PartialCmp + HasBoolMask<Mask = bool> {}
+impl WdMask for f32x4 {}
+impl WdMask for f32x8 {}
+impl WdMask for f64x2 {}
+impl WdMask for f64x4 {}
+
+fn mask_value<S: Flt>(rng: &mut Sm64) -> S {
+    let pool = [0.0, -0.0, 1.0, -1.0, 0.5, 0.25, 1e-30, -1e-30, f64::INFINITY, f64::NEG_INFINITY, f64::NAN, 0.04045, 360.0, 180.0, 2.0, 0.0031308];
+    if rng.below(4) == 0 { S::of64(rng.range(-1.0, 2.0)) } else { S::of64(*rng.pick(&pool)) }
+}
+fn vbits<V: Wd>(v: V) -> Vec<String> { v.to_vec().iter().map(|x| x.bits()).collect() }
+fn vex<V: Wd>(v: V) -> Value { Value::Array(v.to_vec().iter().map(|x| ex64(x.to64())).collect()) }
+
+pub type MaskFn = fn(&mut Sm64, &mut Rec);
+fn mask_events<V: WdMask>(rng: &mut Sm64, rec: &mut Rec)
+where V::S: pn::PartialCmp + HasBoolMask<Mask = bool> {
+    use pn::PartialCmp as PC;
+    let n = V::N;
+    let mk = |rng: &mut Sm64| -> (Vec<V::S>, V) { let a: Vec<V::S> = (0..n).map(|_| mask_value::<V::S>(rng)).collect(); let v = V::from_slice(&a); (a, v) };
+    let (sa, a) = mk(rng);
+    let (mut sb, _) = mk(rng);
+    for k in 0..n { if rng.below(3) == 0 { sb[k] = sa[k]; } }       // many ties
+    let b = V::from_slice(&sb);
+    let base = |op: &str| json!({"ev": "mask", "op": op, "vt": V::VT, "t": <V::S>::TN, "n": n, "a": vex(a), "b": vex(b), "abits": vbits(a), "bbits": vbits(b),
+                                 "m1": [], "m2": [], "out": [], "sm": [], "sv": [], "flag": -1, "panic": 0});
+    // comparisons
+    let cmps: [(&str, fn(&V, &V) -> V, fn(&V::S, &V::S) -> bool); 6] = [
+        ("lt", |x, y| PC::lt(x, y), |x, y| PC::lt(x, y)), ("lt_eq", |x, y| PC::lt_eq(x, y), |x, y| PC::lt_eq(x, y)),
+        ("eq", |x, y| PC::eq(x, y), |x, y| PC::eq(x, y)), ("neq", |x, y| PC::neq(x, y), |x, y| PC::neq(x, y)),
+        ("gt_eq", |x, y| PC::gt_eq(x, y), |x, y| PC::gt_eq(x, y)), ("gt", |x, y| PC::gt(x, y), |x, y| PC::gt(x, y))];
+    for (name, fv, fs) in cmps.iter() {
+        let mut e = base(name);
+        match catch(|| fv(&a, &b)) {
+            Ok(m) => { e["out"] = json!(vbits(m)); }
+            Err(_) => { e["panic"] = json!(1); }
+        }
+        e["sm"] = json!((0..n).map(|k| fs(&sa[k], &sb[k]) as u8).collect::<Vec<u8>>());
+        rec.ev(e);
+    }
+    // masks made by comparisons (well-formed), then select / lazy_select / bit operations / reductions
+    let (sx, x) = mk(rng);
+    let (sy, y) = mk(rng);
+    let m1 = PC::lt(&x, &y);
+    let m2 = PC::gt_eq(&a, &b);
+    let b1: Vec<u8> = (0..n).map(|k| PC::lt(&sx[k], &sy[k]) as u8).collect();
+    let b2: Vec<u8> = (0..n).map(|k| PC::gt_eq(&sa[k], &sb[k]) as u8).collect();
+    for name in ["select", "lazy_select"] {
+        let mut e = base(name);
+        e["m1"] = json!(b1);
+        let r = catch(|| if name == "select" { Select::select(m1, a, b) } else { LazySelect::lazy_select(m1, || a, || b) });
+        match r { Ok(v) => { e["out"] = json!(vbits(v)); } Err(_) => { e["panic"] = json!(1); } }
+        e["sv"] = json!((0..n).map(|k| {
+            let mb = b1[k] == 1;
+            if name == "select" { Select::select(mb, sa[k], sb[k]).bits() } else { LazySelect::lazy_select(mb, || sa[k], || sb[k]).bits() }
+        }).collect::<Vec<String>>());
+        rec.ev(e);
+    }
+    for name in ["and", "or", "xor", "not"] {
+        let mut e = base(name);
+        e["m1"] = json!(b1); e["m2"] = json!(b2);
+        let r = catch(|| match name { "and" => m1 & m2, "or" => m1 | m2, "xor" => m1 ^ m2, _ => !m1 });
+        match r { Ok(v) => { e["out"] = json!(vbits(v)); } Err(_) => { e["panic"] = json!(1); } }
+        e["sm"] = json!((0..n).map(|k| { let (p, q) = (b1[k] == 1, b2[k] == 1); (match name { "and" => p & q, "or" => p | q, "xor" => p ^ q, _ => !p }) as u8 }).collect::<Vec<u8>>());
+        rec.ev(e);
+    }
+    // reductions on: the comparison mask, all-true, all-false
+    for (tag, m, bs) in [("cmp", m1, b1.clone()), ("true", <V as BoolMask>::from_bool(true), vec![1u8; n]), ("false", <V as BoolMask>::from_bool(false), vec![0u8; n])] {
+        for name in ["is_true", "is_false"] {
+            let mut e = base(name);
+            e["m1"] = json!(bs);
+            e["out"] = json!(vbits(m));
+            e["flag"] = json!(if name == "is_true" { m.is_true() } else { m.is_false() } as u8);
+            e["src"] = json!(tag);
+            rec.ev(e);
+        }
+    }
+}
+fn mask_fns() -> Vec<MaskFn> { vec![mask_events::<f32x4>, mask_events::<f32x8>, mask_events::<f64x2>, mask_events::<f64x4>] }
+
+// OPS-PLACEHOLDER
+fn op_caps() -> Value { json!({}) }
+
+// ------------------------------------------------------------------------------------------------ f32 versus f64
+
+impl<'a> Drv<'a> {
+    fn prec(&mut self, fam: &str, cls: &str, from: usize, tos: &[usize], input: &Col) {
+        let nf = ncomp(from);
+        // coordinates for mapping known findings (not judged): Oklab hue of the input in millidegrees, smallest of r, g
+        let okh = self.u.s64[from][8].and_then(|f| f(input).ok()).map(|c| (c[2].rem_euclid(360.0) * 1000.0) as i64).unwrap_or(-1);
+        let rgb = self.u.s64[from][I_SRGB].and_then(|f| f(input).ok()).unwrap_or([1.0; 3]);
+        for &to in tos {
+            let (f32f, f64f) = match (self.u.s32[from][to], self.u.s64[from][to]) { (Some(a), Some(b)) => (a, b), _ => continue };
+            let nt = ncomp(to);
+            let (a, b) = (f32f(input), f64f(input));
+            let o32 = *a.as_ref().unwrap_or(&[0.0; 3]);
+            let o64 = *b.as_ref().unwrap_or(&[0.0; 3]);
+            self.rec.ev(json!({"ev": "prec", "fam": fam, "cls": cls, "from": NAMES[from], "to": NAMES[to], "in": exc(input, nf),
+                "o32": exc(&o32, nt), "o64": exc(&o64, nt), "h32": exc(&self.u.hub(to, &o32), 3), "h64": exc(&self.u.hub(to, &o64), 3),
+                "p32": a.is_err() as u8, "p64": b.is_err() as u8, "okh_mdeg": okh, "rg_max_e6": (rgb[0].max(rgb[1]) * 1e6) as i64}));
+        }
+    }
+}
+
+fn main() {
+    let u = Universe::new();
+    let input = std::fs::read_to_string(arg("--cmds").expect("--cmds")).expect("command file");
+    let mut d = Drv { u: &u, rec: Rec::create(&arg_or("--out", "-")), gid: 0 };
+    let mut g = Gen { u: &u, rng: Sm64::new(seed_from_env()) };
+    for line in input.lines() {
+        if line.trim().is_empty() { continue; }
+        let c: Value = serde_json::from_str(line).expect("command json");
+        let tos = |c: &Value, from: usize| -> Vec<usize> {
+            let l = strs(&c["to"]);
+            if l.is_empty() { (0..19).filter(|&b| u.vts[0].3[from][b].is_some()).collect() } else { l.iter().map(|s| idx(s)).collect() }
+        };
+        match c["op"].as_str().unwrap_or("") {
+            "caps" => d.caps(),
+            "group" => {
+                let from = idx(c["from"].as_str().unwrap());
+                let fam = c["fam"].as_str().unwrap();
+                let classes = strs(&c["lanes"]);
+                let ins: Vec<Col> = classes.iter().map(|cl| g.make_input(fam, cl, from)).collect();
+                d.lanes(fam, &classes, from, &tos(&c, from), &strs(&c["vt"]), &ins);
+            }
+            "lanes" => {
+                let from = idx(c["from"].as_str().unwrap());
+                let ins: Vec<Col> = c["in"].as_array().unwrap().iter().map(|l| {
+                    let mut o = [0.0; 3];
+                    for (k, s) in l.as_array().unwrap().iter().enumerate() { o[k] = hexf(s.as_str().unwrap()); }
+                    o
+                }).collect();
+                d.lanes("explicit", &[], from, &tos(&c, from), &strs(&c["vt"]), &ins);
+            }
+            "random" => {
+                let from = idx(c["from"].as_str().unwrap());
+                for _ in 0..c["groups"].as_u64().unwrap_or(1) {
+                    for n in [2usize, 4, 8] {
+                        let ins: Vec<Col> = (0..n).map(|_| g.random_in(from)).collect();
+                        d.lanes("random", &[], from, &tos(&c, from), &strs(&c["vt"]), &ins);
+                    }
+                }
+            }
+            "pack" => {
+                let fns = pack_fns();
+                for _ in 0..c["count"].as_u64().unwrap_or(1) {
+                    for row in &fns { for f in row { for alpha in [false, true] { let e = f(&mut g.rng, alpha); d.rec.ev(e); } } }
+                }
+            }
+            "mask" => {
+                for _ in 0..c["count"].as_u64().unwrap_or(1) { for f in mask_fns() { f(&mut g.rng, &mut d.rec); } }
+            }
+            "prec" => {
+                let from = idx(c["from"].as_str().unwrap());
+                let fam = c["fam"].as_str().unwrap_or("random");
+                let all: Vec<usize> = (0..19).collect();
+                let l = strs(&c["to"]);
+                let tos: Vec<usize> = if l.is_empty() { all } else { l.iter().map(|s| idx(s)).collect() };
+                if fam == "random" {
+                    for _ in 0..c["count"].as_u64().unwrap_or(1) {
+                        // stay off the blue edge of the gamut (r = g = 0), where f32 Okhsl/Okhsv/Okhwb are a known finding of C15
+                        let mut rgb = g.srgb_any();
+                        while rgb[0].max(rgb[1]) < 0.02 * rgb[2] { rgb = g.srgb_any(); }
+                        let input = g.from_srgb(from, rgb);
+                        d.prec("random", "", from, &tos, &input);
+                    }
+                } else {
+                    for cl in strs(&c["lanes"]) { let input = g.make_input(fam, &cl, from); d.prec(fam, &cl, from, &tos, &input); }
+                }
+            }
+            other => { eprintln!("unknown op {}", other); std::process::exit(3) }
+        }
+    }
+    let n = d.rec.finish();
+    eprintln!("simd: {} events", n);
 }
